@@ -48,6 +48,9 @@ def forms(tier: str) -> List[Tuple[A.Atom, Tuple[str, int], str]]:
             out.append((sub(["txn GroupIndex", f"int {k}", "+", f"gtxns {f}"]), ("rel", k), f))
             out.append((sub(["txn GroupIndex", f"int {k}", "-", f"gtxns {f}"]), ("rel", -k), f))
             out.append((sub([f"int {k}", "txn GroupIndex", "+", f"gtxns {f}"]), ("rel", k), f))
+            # k - GroupIndex is an absolute position computed from the own index: no single place stands for it,
+            # in particular not the member at offset -k
+            out.append((sub([f"int {k}", "txn GroupIndex", "-", f"gtxns {f}"]), ("none", 0), f))
         out.append((sub(["txn GroupIndex", f"gtxns {f}"]), ("self", 0), f))
         out.append((list(atom), ("self", 0), f))
     return out
@@ -226,10 +229,10 @@ def worker(item: Any, res: runner.Result) -> None:  # pylint: disable=too-many-l
         for k in range(-15, 16):
             if k != 0:
                 places[f"rel{k}"] = ctx.relative_context(k)
-        want = "self" if kind == "self" else (f"abs{n}" if kind == "abs" else f"rel{n}")
+        want = "self" if kind == "self" else (f"abs{n}" if kind == "abs" else (f"rel{n}" if kind == "rel" else "nowhere"))
         got = sorted(p for p, sub in places.items() if constrained(sub))
         res.count("attribution_cases")
-        if want not in got:
+        if kind != "none" and want not in got:
             res.violation("C10.read-not-attributed", item, block=1, field=field, expected=want, constrained=got)
         extra = [p for p in got if p != want]
         if extra:
